@@ -373,7 +373,9 @@ func (e *tokEnv) roundTrip(iss *principal, t token.Token, f0 W, ty, tagx string)
 
 // ---- envelopes offered to the decoders ----
 
-func (e *tokEnv) facts(n datamodel.Node) W {
+func (e *tokEnv) facts(n datamodel.Node, raw []byte) W {
+	// the sealed entry points only accept the canonical encoding of what they decoded (DecodeSealed)
+	canonical := n != nil && bytes.Equal(cborOf(n), raw)
 	hdr := WNull
 	verify := false
 	var spb []byte
@@ -402,7 +404,7 @@ func (e *tokEnv) facts(n datamodel.Node) W {
 			}
 		}
 	}
-	return WMap(KV{"hdr", hdr}, KV{"verify", WBool(verify)}, KV{"spbytes", WBytes(spb)})
+	return WMap(KV{"hdr", hdr}, KV{"verify", WBool(verify)}, KV{"spbytes", WBytes(spb)}, KV{"canonical", WBool(canonical)})
 }
 
 func (e *tokEnv) offer(tag string, b []byte) {
@@ -430,10 +432,10 @@ func (e *tokEnv) offer(tag string, b []byte) {
 	})
 	if derr != nil {
 		// not DAG-CBOR at all: nothing for the model to look at beyond "must be rejected"
-		e.c.Emit(tag+"/undecodable", WList(WStr("env"), WNull, e.facts(nil)), WList(og, od, oi, WBool(true)))
+		e.c.Emit(tag+"/undecodable", WList(WStr("env"), WNull, e.facts(nil, b)), WList(og, od, oi, WBool(true)))
 		return
 	}
-	e.c.Emit(tag, WList(WStr("env"), WNode(n), e.facts(n)), WList(og, od, oi, WBool(true)))
+	e.c.Emit(tag, WList(WStr("env"), WNode(n), e.facts(n, b)), WList(og, od, oi, WBool(true)))
 }
 
 // signEnvelope seals an arbitrary payload node the way go-ucan does, with go-ipld-prime and libp2p only.
